@@ -29,4 +29,20 @@ CLAIMED["C10"] = {
     "note": COMMON_NOTE + "argparse abbreviation matching is excluded from the 'no other spelling' probe.",
     "technique": "Coq proof + exhaustive-over-configurations vm_compute model/impl correspondence",
 }
+CLAIMED["C06"] = {
+    "text": "Theorems for all schemas/layers (induction on trees): dict_union is a right-biased leaf-wise merge (C06_dict_union_lookup); the final "
+            "value of every leaf is the highest-priority layer that mentions it with a non-null value (C06_layers_partial; the full statement is "
+            "refuted by `x: Optional[int]=5`, file `x: null`, a known finding); siblings untouched; unknown keys are errors at any depth. "
+            "dict_union, the order of the two config-file loops, the re-rooting condition and the unknown-name error are regenerated from the source.",
+    "note": COMMON_NOTE + "argparse ('an explicit option overrides the default'), file I/O and json/yaml loading are modelled.",
+    "technique": "Coq proof over regenerated facts + vm_compute model/impl correspondence",
+}
+CLAIMED["C20"] = {
+    "text": "Theorems for all signatures: main passes every parameter exactly its parsed value once, positional-only ones positionally in order "
+            "(C20_main_partial; domain includes bool parameters since the regenerated fact C20_nothing_bogus_forwarded holds); config_for fields = "
+            "non-ignored parameters with defaults preserved; Partial.__call__ = field values updated by call-site kwargs; class cache for hashable "
+            "arguments. Mutable defaults, positional-only fields of config_for and unhashable ignore_args are refuted with witnesses (known findings).",
+    "note": COMMON_NOTE + "inspect.signature, lru_cache, CPython call binding and the 'equivalent dataclass parse' are modelled.",
+    "technique": "Coq proof over regenerated facts + vm_compute model/impl correspondence",
+}
 NOT_CLAIMED = {}
